@@ -26,6 +26,10 @@ CLAIMS = {
  "C06": ("Relay.tla (both directions, declared vs carried lengths, liveness) model-checked; every environment action sequence of its state graph replayed on an open channel of the real binary with "
          "boundary payload sizes over both transports; host-side bytes and client-side DATA packets compared with PRNG streams; TLC judges each action (RelayTrace).", "DESIGN.md §4 C06",
          "TLC design check of the relay; model-generated interleavings replayed on the real gateway; TLC trace validation"),
+ "C07": ("Gateway.tla isolation invariants (each client/host sees only its own tunnel's data; legacy pairing by connection id) model-checked; interleavings of the steps of 2 and 3 tunnels enumerated by TLC (Interleave.tla) plus "
+         "random schedules of 8..64 tunnels with distinct users, tokens, hosts, client addresses and mixed transports executed step by step on one real gateway; every tunnel's steps validated by TLC with that tunnel's own "
+         "parameters, and after every payload all other tunnels' peers are checked for leaked bytes.", "DESIGN.md §4 C07",
+         "TLC design check; TLC-enumerated interleavings replayed on the real gateway; per-tunnel TLC trace validation"),
  "C08": ("Framing.tla model-checked for every stream x every read segmentation within bounds; an 8-packet session cut at every header-relevant offset, every coalescing run, whole-stream reads, >4 KiB packets, "
          "random multi-cuts and malformed/never-completed length fields on ws messages, ws continuation frames, HTTP chunks and chunks split over TCP writes; actual read sizes from the tr.read hook; "
          "TLC compares accepted packets, responses and host bytes with the uncut run (FramingTrace).", "DESIGN.md §4 C08",
